@@ -68,6 +68,11 @@ struct Plan {
     /// for that long, e.g. a sender whose write is slow; calls queue up behind it
     #[serde(default)]
     lock_holds: Vec<(u64, u64)>,
+    /// creation EPMD hands out (0 = 3); replies may use the older identifier tags when it fits in a byte
+    #[serde(default)]
+    creation: u32,
+    #[serde(default)]
+    legacy_ids: bool,
     #[serde(default)]
     salt: u64,
 }
@@ -131,6 +136,8 @@ impl Scenario for C17 {
             conn_fault_delay_ms: 0,
             calls_before_start: if r.chance(1, 10) { r.range(1, 3) as u32 } else { 0 },
             lock_holds: if r.chance(1, 8) { (0..r.range(1, 2)).map(|_| (r.below(60), *r.pick(&[300u64, 2_000, 8_000, 40_000]))).collect() } else { Vec::new() },
+            creation: *r.pick(&[3u32, 3, 1, 6, 255, 70_000]),
+            legacy_ids: r.chance(1, 4),
             salt: r.next_u64(),
         };
         let m = margin_ms(&p);
@@ -150,7 +157,16 @@ impl Scenario for C17 {
                     _ => r.below(timeout_ms / 3 + 1),
                 };
                 let jump_to_wrap = if r.chance(1, 12) { r.range(1, 4) as u32 } else { 0 };
-                calls.push(CallSpec { timeout_ms, start_delay_ms: r.below(40), reply, delay_ms, to_unconnected: r.chance(1, 16), jump_to_wrap });
+                let mut spec = CallSpec { timeout_ms, start_delay_ms: r.below(40), reply, delay_ms, to_unconnected: r.chance(1, 16), jump_to_wrap };
+                if !faults && !spec.to_unconnected && r.chance(1, 12) {
+                    // "no timeout": the largest duration there is (u64::MAX here stands for Duration::MAX); the peer answers
+                    // (fault-free runs only: with the connection gone such a call has nothing left to wait for, and
+                    // whether it must then return is not what the statement decides)
+                    spec.timeout_ms = u64::MAX;
+                    spec.reply = (*r.pick(&["normal", "normal", "twice"])).to_string();
+                    spec.delay_ms = r.below(2_000);
+                }
+                calls.push(spec);
             }
             callers.push(calls);
         }
@@ -168,6 +184,10 @@ impl Scenario for C17 {
             Ok(p) => p,
             Err(_) => return RunOutput::default(),
         };
+        // unbounded timeouts only where the generator puts them: fault-free runs, the peer answers
+        if p.callers.iter().flatten().any(|c| c.timeout_ms == u64::MAX && (p.faults || !p.conn_fault.is_empty() || c.to_unconnected || !(c.reply == "normal" || c.reply == "twice"))) {
+            return RunOutput::default();
+        }
         if p.callers.is_empty() || p.callers.len() > 16 {
             return RunOutput::default();
         }
@@ -184,7 +204,7 @@ impl Scenario for C17 {
             components_stubbed: &["TCP (SimNet)", "EPMD (stub)", "remote node: handshake acceptor + rex model with an independent frame/term reader"],
             assumptions: &["the peer ticks every 5 simulated seconds so that the receiver's 10 s read timeout (a C19 question) does not interfere", "RpcTimeout is judged inadmissible only if a reply addressed to the call was written by the peer at least `margin` before the call returned (margin = injected network/yield delay bound)"],
             fault_prefixes: &["fault.", "net."],
-            expected_probes: &["probe.c17.ok", "probe.c17.timeout", "probe.c17.reply_after_timeout_dropped", "probe.c17.duplicate_reply_dropped", "probe.c17.unknown_pid_reply_dropped", "probe.c17.not_connected", "probe.c17.send_failed", "probe.c17.liveness_probe_ok", "probe.c17.counter_moved_to_wrap", "probe.c17.calls_before_start"],
+            expected_probes: &["probe.c17.ok", "probe.c17.ok_with_unbounded_timeout", "probe.c17.reply_with_legacy_pid_tag", "probe.c17.timeout", "probe.c17.reply_after_timeout_dropped", "probe.c17.duplicate_reply_dropped", "probe.c17.unknown_pid_reply_dropped", "probe.c17.not_connected", "probe.c17.send_failed", "probe.c17.liveness_probe_ok", "probe.c17.counter_moved_to_wrap", "probe.c17.calls_before_start"],
         }
     }
 }
@@ -382,11 +402,15 @@ async fn rex(w: Arc<World>, mut conn: ServerConn, p: Arc<Plan>, sh: Arc<Mutex<Sh
                 last_reply = Some((to.clone(), c.clone()));
             }
             let tx = tx.clone();
+            let legacy = p.legacy_ids;
+            if legacy {
+                w.stat("probe.c17.reply_with_legacy_pid_tag");
+            }
             tokio::spawn(async move {
                 if delay > 0 {
                     tokio::time::sleep(Duration::from_millis(delay)).await;
                 }
-                let frame = reply_frame(&to, &c);
+                let frame = wire::with_legacy_ids(legacy, || reply_frame(&to, &c));
                 let _ = tx.send((Some((to, c)), frame));
             });
         }
@@ -425,7 +449,7 @@ async fn scenario(w: &Arc<World>, p: &Plan) {
         w.stat("probe.c17.calls_before_start");
         Arc::new(node)
     } else {
-        let node = match start_node(w, 3).await {
+        let node = match start_node(w, if p.creation == 0 { 3 } else { p.creation }).await {
             Ok(n) => Arc::new(n),
             Err(e) => {
                 w.violation("HARNESS-setup", e);
@@ -491,7 +515,7 @@ async fn scenario(w: &Arc<World>, p: &Plan) {
                 }
                 let t0 = World::now_ms();
                 let r = node
-                    .rpc_call_raw_with_timeout(target, "m", "f", vec![OwnedTerm::Integer(ci as i64), OwnedTerm::Integer(ix as i64)], Duration::from_millis(c.timeout_ms))
+                    .rpc_call_raw_with_timeout(target, "m", "f", vec![OwnedTerm::Integer(ci as i64), OwnedTerm::Integer(ix as i64)], if c.timeout_ms == u64::MAX { Duration::MAX } else { Duration::from_millis(c.timeout_ms) })
                     .await;
                 let t1 = World::now_ms();
                 let (ok, err) = match &r {
@@ -575,6 +599,9 @@ fn evaluate(w: &Arc<World>, p: &Plan, sh: &Arc<Mutex<Shared>>) {
         match (&r.ok, r.err.as_str()) {
             (Some(v), _) => {
                 w.stat("probe.c17.ok");
+                if spec.timeout_ms == u64::MAX {
+                    w.stat("probe.c17.ok_with_unbounded_timeout");
+                }
                 let Some(req) = req else {
                     w.violation("reply-from-nowhere", format!("caller {} call {} returned Ok({}) although the peer never saw its request", r.caller, r.idx, v.short()));
                     continue;
@@ -608,7 +635,7 @@ fn evaluate(w: &Arc<World>, p: &Plan, sh: &Arc<Mutex<Shared>>) {
                         w.stat("probe.c17.unknown_pid_reply_dropped");
                     }
                 }
-                if r.t1 < r.t0 + spec.timeout_ms {
+                if r.t1 < r.t0.saturating_add(spec.timeout_ms) {
                     w.violation("early-timeout", format!("caller {} call {} reported RpcTimeout after {}ms with a timeout of {}ms", r.caller, r.idx, r.t1 - r.t0, spec.timeout_ms));
                 }
             }
